@@ -372,6 +372,53 @@ fn file0() -> FileId {
     unsafe { std::mem::transmute::<u32, FileId>(0) }
 }
 
+// ------------------------------------------------------------------------------------------------------------------
+// C08 "never overflows the stack": #include recursion is bounded.  preprocess_command -> preprocess_included_file ->
+// preprocess_command is the only recursion through files; the harness proves the step of the induction on the real
+// directive handler: for EVERY value of the depth counter within its invariant (<= MAX_INCLUDE_DEPTH), an #include at the
+// limit is refused before the file is even looked up, and below the limit the nested file is processed with the counter
+// one higher (so still within the invariant) and the counter is restored afterwards.  Hence no chain of nested files is
+// longer than MAX_INCLUDE_DEPTH + 1.  The loader and the nested call are recorders.  BOUNDED: one token shape.
+static mut DEPTH_SEEN_BY_INCLUDED: u32 = 0;
+fn rec_load_ok<'a>(_s: &mut FileLoader<'a>, _n: &str, _p: Option<FileId>) -> Result<InputFile, IncludeError> where 'a: 'a {
+    unsafe { CALLS_LOAD += 1; }
+    Ok(InputFile { file_id: file0(), contents: String::new() })
+}
+fn rec_included_depth(_b: &mut Vec<PreprocessToken>, f: &mut FileLoader, _i: InputFile, _m: &mut Vec<Macro>, _c: &mut ConditionChain) -> Result<(), PreprocessError> {
+    unsafe { CALLS_INCLUDED += 1; DEPTH_SEEN_BY_INCLUDED = f.include_depth; }
+    Ok(())
+}
+#[kani::proof]
+#[kani::unwind(8)]
+#[kani::stub(apply_macros, rec_apply_macros)]
+#[kani::stub(crate::condition_parser::parse, rec_parse_condition)]
+#[kani::stub(Macro::parse, rec_macro_parse)]
+#[kani::stub(FileLoader::mark_as_pragma_once, rec_pragma_once)]
+#[kani::stub(FileLoader::load, rec_load_ok)]
+#[kani::stub(preprocess_included_file, rec_included_depth)]
+fn c08_include_depth_is_bounded() {
+    let r = rig();
+    let depth: u32 = kani::any();
+    kani::assume(depth <= MAX_INCLUDE_DEPTH);
+    r.loader.include_depth = depth;
+    let chain = Box::leak(Box::new(ConditionChain::new()));
+    let command = cmd3(id("include"), ws(), tok(Token::LiteralString("f".to_string())));
+    let res = preprocess_command(r.buffer, r.loader, command, file0(), r.macros, chain);
+    if depth >= MAX_INCLUDE_DEPTH {
+        assert!(matches!(res, Err(PreprocessError::IncludeNestingTooDeep(_))));
+        assert!(unsafe { CALLS_LOAD } == 0 && unsafe { CALLS_INCLUDED } == 0);
+    } else {
+        assert!(res.is_ok());
+        assert!(unsafe { CALLS_LOAD } == 1 && unsafe { CALLS_INCLUDED } == 1);
+        assert!(unsafe { DEPTH_SEEN_BY_INCLUDED } == depth + 1 && unsafe { DEPTH_SEEN_BY_INCLUDED } <= MAX_INCLUDE_DEPTH);
+    }
+    assert!(r.loader.include_depth == depth);
+    assert!(MAX_INCLUDE_DEPTH <= 200);
+    std::mem::forget(res);
+    kani::cover!(depth >= MAX_INCLUDE_DEPTH);
+    kani::cover!(depth < MAX_INCLUDE_DEPTH);
+}
+
 // prepare_tokens (C14 mechanism: the parser receives the non-trivia tokens only) was tried here: `iter().cloned().filter_map().collect()`
 // over three tokens needs more than 22 GB in CBMC (Token is a 200-variant enum with String payloads, cloned per element) - not decided.
 
